@@ -136,12 +136,14 @@ func (op *pipelineOp) exec(fm *Frame) Exception {
 				sendStop: sendStop, sendError: sendError, readerGone: readerGone}
 		}
 		f := func(form *formOp, fops []formOwnedPort, pexc *Exception) {
+			// The redirections of the form may replace port 0, so remember the
+			// port that reads from the previous form now.
+			input := newFm.ports[0]
 			exc := form.exec(newFm, &fops)
 			if exc != nil && !(outputIsPipe && isReaderGone(exc)) {
 				*pexc = exc
 			}
 			if inputIsPipe {
-				input := newFm.ports[0]
 				*input.sendError = errs.ReaderGone{}
 				close(input.sendStop)
 				input.readerGone.Store(true)
